@@ -41,13 +41,13 @@ CLAIMED = {
             "lexical confinement (symlinks outside the claim); ASCII names of <= 4 bytes, <= 3 nodes; os calls are recorders",
             "DESIGN.md 5 C07"),
     "C08": ("bounded symbolic model checking of the verifier against the file-system model: for every forest up to the bound and every directory state of the family (present subsets, files, extras, strict or not) z3 decides verdict, soundness and exactness of both reported lists for the first differing root, the public error text and read-only-ness; and that a tree just made by the real Mkdir code verifies strictly",
-            "file-system model incl. the fs.WalkDir / filepath.WalkDir contracts is trusted (exercised natively); the first root may be a symbolic link to a directory (Stat-following operations see a directory, an Lstat-based walk does not descend); bound N=3 for the state-space job",
+            "file-system model incl. the fs.WalkDir / filepath.WalkDir contracts is trusted (exercised natively); the first root may be a symbolic link to a directory (Stat-following operations see a directory, an Lstat-based walk does not descend); bound N=3 for the state-space job; a present node may be a regular file although the tree gives it children; byte-level jobs (names of 1..2 bytes over a 4-letter alphabet, real filepath code) list every directory in the real lexical order",
             "DESIGN.md 5 C08"),
     "C09": ("bounded symbolic model checking of the three dry-run routes against the real mkdir code in one harness: no mutation, report text equals tree text plus per-root counts, and the counts equal what the real Mkdir then creates in the same model; names-based rejection equivalence is decided at byte level under C07",
-            "file-system model, color/bufio stubs; massive mode under C10",
+            "file-system model, color/bufio stubs; target directory present or missing, default or four opaque branch strings, every call with its own copy of the extension list (which may hold duplicates); massive mode under C10",
             "DESIGN.md 5 C09"),
     "C10": ("bounded symbolic model checking of the real pipeline code next to the real simple-mode code on the same symbolic documents: goroutines, channels, select, WaitGroup, Mutex, context and errgroup are interpreted under a deterministic cooperative scheduler (several policies), and z3 decides same accept/reject decision and equality of results up to the order of roots (whole per-root blocks) for text, JSON, dry-run, walk, mkdir and verify; a byte-level job decides the unit-learning difference, another the pre-existing-root case",
-            "the input and configuration quantifiers are decided; the schedule quantifier only over the explored policies (each a legal Go schedule) - equality under every schedule is NOT claimed; no data-race detection; two known findings (mixed indentation units per block, partial mkdir when a root exists) are listed in known_findings.txt",
+            "the input and configuration quantifiers are decided; the schedule quantifier only over the explored policies (each a legal Go schedule) - equality under every schedule is NOT claimed; data races of the pipeline are decided under C11 (happens-before detector on this harness family); two known findings (mixed indentation units per block, partial mkdir when a root exists) are listed in known_findings.txt",
             "DESIGN.md 5 C10, 3.6"),
     "C11": ("bounded symbolic model checking of termination, error reporting and goroutine leaks of the real pipeline under the engine's scheduler: failing subsets of blocks in every stage, a failing reader, and cancellation of the caller's context at a symbolic synchronisation event; a blocked main goroutine with nothing runnable is reported as deadlock, after the return every runnable goroutine is run to quiescence and survivors are counted, and a vector-clock happens-before detector checks every load/store/map access/append of library code for unsynchronised conflicting accesses",
             "schedules: FIFO/LIFO x first/last ready select case and 4-8 pseudo-random ones only (each a legal Go schedule; all schedules are NOT claimed); read-yield schedules for cancellation inside one long block (at most one more row read after the return). Data-race clause: every job runs with a happens-before (vector-clock, FastTrack-style) detector over the interpreted execution -- go, channels, select, Mutex, WaitGroup, errgroup, context, sync/atomic, sync.Pool are the synchronisation edges; a pair of unordered conflicting accesses in library code on an explored schedule is reported as race@<op> and confirmed on a -race build of the native harness (model, then the amplified scenario VerifRaceStress); sequential consistency is assumed for the values read (no weak-memory effects), memory touched only inside host-level stubs (encoders, color) is not tracked",
@@ -102,7 +102,7 @@ def main():
         },
         "engines": [{
             "name": "gosym", "path": "/verif/engine", "serves_properties": sorted(CLAIMED),
-            "kind_free_text": "bounded symbolic executor for go/ssa (SSA of /repo rebuilt on every run) with z3 4.8.12 / 5.1 as the deciding step; models replayed natively against the real build",
+            "kind_free_text": "bounded symbolic executor for go/ssa (SSA of /repo rebuilt on every run) with z3 4.8.12 / 5.1 (cvc5 1.0 for some models and for cross-checks) as the deciding step; interpreted goroutines under deterministic schedule policies with a vector-clock happens-before race detector; models replayed natively against the real build (also on a -race build)",
         }],
         "checks": checks,
         "not_applicable": na,
